@@ -283,7 +283,7 @@ Qed.
 
 Lemma step_static f o : same_static f (fst (step f o)).
 Proof.
-  destruct o as [d|v b|v b|v b]; cbn [step step_with fst]; try apply setter_static.
+  destruct o as [d|v b|v b|v b|k r]; cbn [step step_with fst]; try apply setter_static; [|apply same_static_refl].
   unfold step, step_with. destruct (fk f) eqn:Hk.
   - destruct d as [|kv t]; [rewrite attach_empty by exact Hk; apply same_static_refl|].
     destruct (attach_hwmon_effect f (kv :: t) Hk) as [f2 [E H]]; [discriminate|]. rewrite E. cbn [fst].
@@ -320,7 +320,7 @@ Lemma step_cfg_wins f o :
   fk f = HwMon -> forced o = false -> cfg_wins f -> cfg_wins (fst (step f o)).
 Proof.
   intros Hk Hf [W1 [W2 W3]].
-  destruct o as [d|v b|v b|v b]; cbn [forced] in Hf; try subst b.
+  destruct o as [d|v b|v b|v b|k r]; cbn [forced] in Hf; try subst b; [| | | |repeat split; assumption].
   - unfold step, step_with. destruct d as [|kv t]; [rewrite attach_empty by exact Hk; repeat split; assumption|].
     destruct (attach_hwmon_effect f (kv :: t) Hk) as [f2 [E [_ [_ [C1 [C2 [C3 [S [M [Mi _]]]]]]]]]]; [discriminate|].
     rewrite E. cbn [fst]. unfold cfg_wins. rewrite C1, C2, C3, S, M, Mi. repeat split; intros x Hx.
